@@ -36,11 +36,38 @@ Proof.
 Qed.
 End Inversions.
 
+Section EvFacts2.
+Variable C : cfg.
+Variable ev : dyn -> rid -> cursor -> result.
+Hypothesis Hgood : forall d r c, goodT (dM d) c (ev d r c).
+
+Lemma until1_cons n d cnd : Cn ev cnd -> forall c c' evs, until1_loop C ev n d cnd c = Res Ok c' evs -> len c' < len c.
+Proof.
+  intros Hc. induction n as [|n IH]; intros c c' evs H; [discriminate|]. cbn [until1_loop] in H.
+  destruct (ev (req d) cnd c) as [[| |ex] c0 evs0| |] eqn:E1; try discriminate.
+  - inversion H; subst. eapply Hc; eauto.
+  - apply (ev_fail_req ev Hgood) in E1; [|reflexivity]. subst c0.
+    destruct (in_empty c); [discriminate|].
+    destruct (bump_scan (eol_ch (ceol C)) 1 c) as [c2|] eqn:Eb; [|discriminate].
+    apply prepend_inv in H. destruct H as [e' H]. apply IH in H. apply bump_scan_len in Eb. lia.
+Qed.
+
+Lemma inline_result_ok_inv x c_ok c_fail pre c' evs : inline_result x c_ok c_fail pre = Res Ok c' evs -> c' = c_ok.
+Proof. destruct x as [[[|]|t] e]; simpl; intros H; inversion H; reflexivity. Qed.
+
+Lemma h_if_apply_ok_inv d acts_ r1 c c' evs : h_if_apply C ev d acts_ r1 c = Res Ok c' evs -> exists d' evs', ev d' r1 c = Res Ok c' evs'.
+Proof.
+  unfold h_if_apply. destruct (dA d && negb match acts_ with [] => true | _ :: _ => false end); [|eauto].
+  destruct (ev (set_A (opt_ d) true) r1 c) as [[| |ex] c1 evs1| |] eqn:E; try discriminate.
+  intros H. apply inline_result_ok_inv in H. subst c'. eauto.
+Qed.
+End EvFacts2.
+
 Section Cons.
 Variable G : grammar.
 Variable C : cfg.
 Hypothesis Hwf : table_wf G.
-Hypothesis Hcov : heads_covered G = true.
+Hypothesis Hcov : table_shape_ok G = true.
 Notation ent := (aentry G).
 
 Definition cons_ok (r : rid) : Prop := exists h stk, okh ent h stk (rl r) true.
@@ -64,120 +91,122 @@ Proof.
   intros Ht H. destruct (true_elem_cn h stk t [r] Ht H) as [r0 [[<-|[]] Hc]]. exact Hc.
 Qed.
 
-Lemma cons_head n self nd h stk d c c' evs :
-  nth_error G self = Some nd -> okh ent h stk (rl self) true ->
-  eval_head C ev n self (nhead nd) (nsubs nd) d c = Res Ok c' evs -> len c' < len c.
+(* stated for an arbitrary (head, subs) whose trait is stored under the name self: if_apply / until< Cond > store
+   the trait of another rule under their own name *)
+Lemma cons_head n eself (self : rid) h0 subs0 h stk d c c' evs :
+  head_wf h0 -> head_direct h0 = true ->
+  ent (rl self) = main_entry G self h0 subs0 ->
+  (forall k, ent (self, S k) = syn_entry G self h0 subs0 (S k)) ->
+  okh ent h stk (rl self) true ->
+  eval_head C ev n eself h0 subs0 d c = Res Ok c' evs -> len c' < len c.
 Proof.
-  intros Hn Hok He.
+  intros Hw Hc Hmain Esyn Hok He.
   apply okh_inv in Hok. destruct Hok as [h' [a [_ [Hnin [Hf Eb]]]]]. symmetry in Eb.
-  pose proof (ent_syn G Hcov self nd) as Esyn.
-  rewrite (ent_main G Hcov self nd Hn) in Hf, Eb.
-  pose proof (Hwf self nd Hn) as Hw.
-  pose proof (covered_node G Hcov self nd Hn) as Hc.
+  rewrite Hmain in Hf, Eb.
   assert (NS : KSeq <> KSor) by discriminate.
   unfold eval_head in He.
-  destruct (eval_atom (ceol C) (nhead nd) c) as [x|] eqn:Ea.
-  { subst x. eapply atom_cons with (G := G) (self := self) (subs := nsubs nd); eauto.
-    destruct (ekind (main_entry G self (nhead nd) (nsubs nd))) eqn:Ek; try reflexivity; try discriminate Eb;
-      destruct (nhead nd); cbn [eval_atom] in Ea; try discriminate Ea; cbn in Ek; try discriminate Ek;
+  destruct (eval_atom (ceol C) h0 c) as [x|] eqn:Ea.
+  { subst x. eapply atom_cons with (G := G) (self := self) (subs := subs0); eauto.
+    destruct (ekind (main_entry G self h0 subs0)) eqn:Ek; try reflexivity; try discriminate Eb;
+      destruct h0; cbn [eval_atom] in Ea; try discriminate Ea; cbn in Ek; try discriminate Ek;
       match type of Ek with context[if ?b then _ else _] => destruct b; cbn in Ek; discriminate Ek
                           | context[match ?n with O => _ | S _ => _ end] => destruct n; cbn in Ek; discriminate Ek end. }
-  destruct (nhead nd) eqn:Eh; cbn [eval_atom] in Ea; try discriminate Ea; try (destruct pk; discriminate Ea); try discriminate Hc; clear Ea.
+  destruct h0 eqn:Eh; cbn [eval_atom] in Ea; try discriminate Ea; try (destruct pk; discriminate Ea); try discriminate Hc; clear Ea.
   - (* seq *)
-    destruct (nsubs nd) as [|s0 ss] eqn:Es; [cbn in Eb; discriminate Eb|].
+    destruct subs0 as [|s0 ss] eqn:Es; [cbn in Eb; discriminate Eb|].
     cbn in Eb. subst a. cbn [main_entry t_seq rls map e_seq ekind esubs] in Hf.
     destruct (true_elem_cn h' _ KSeq (s0 :: ss) NS Hf) as [r [Hr Hcn]].
     apply (h_seq_ok_inv ev) in He. destruct He as [d' [evs' He]].
     eapply (seq_all_cons ev Hgood); [exists r; split; eauto | exact He].
   - (* sor *)
-    destruct (nsubs nd) as [|s0 ss] eqn:Es; [discriminate He|].
+    destruct subs0 as [|s0 ss] eqn:Es; [discriminate He|].
     cbn in Eb. subst a. cbn [main_entry rls map e_sor ekind esubs] in Hf.
     eapply (sor_any_cons ev Hgood); [|exact He].
     intros r Hr. destruct (okfh_sor_all ent h' _ _ _ Hf (rl r)) as [b [Hb Hi]].
     { change (rl s0 :: map rl ss) with (rls (s0 :: ss)). unfold rls. apply in_map. exact Hr. }
     rewrite (Hi eq_refl) in Hb. eapply cn_of; eauto.
-  - (* star_partial *) destruct (nsubs nd); cbn in Eb; discriminate Eb.
+  - (* star_partial *) destruct subs0; cbn in Eb; discriminate Eb.
   - (* plus *)
-    destruct (nsubs nd) as [|r1 [|r2 rs]] eqn:Es; try discriminate He.
+    destruct subs0 as [|r1 [|r2 rs]] eqn:Es; try discriminate He.
     cbn in Eb. subst a. cbn [main_entry rls map app e_seq ekind esubs] in Hf.
     eapply (h_plus_cons ev Hgood); [|exact He].
     inversion Hf as [| ? ? ? ? ? Ht Hr1 | ? ? ? ? ? ? Ht Hr1 Hrest | |]; subst; [eapply cn_of; eauto|].
     exfalso. destruct (okfh_true_elem ent h' _ KSeq _ NS Hrest) as [x [[<-|[]] Hx]].
-    apply okh_kind_true in Hx. apply Hx. unfold sy. rewrite (Esyn 0 Hn). reflexivity.
+    apply okh_kind_true in Hx. apply Hx. unfold sy. rewrite (Esyn 0). reflexivity.
   - (* partial *) cbn in Eb; discriminate Eb.
   - (* at *) cbn in Eb; discriminate Eb.
   - (* not_at *) cbn in Eb; discriminate Eb.
   - (* until2 *)
-    destruct (nsubs nd) as [|cnd [|r1 [|r2 rs]]] eqn:Es; try discriminate He.
+    destruct subs0 as [|cnd [|r1 [|r2 rs]]] eqn:Es; try discriminate He.
     cbn in Eb. subst a. cbn [main_entry e_seq ekind esubs] in Hf.
     unfold h_until2 in He. apply guard_ok_inv in He.
     eapply (until2_cons ev Hgood); [|exact He].
     inversion Hf as [| ? ? ? ? ? Ht Hr1 | ? ? ? ? ? ? Ht Hr1 Hrest | |]; subst.
-    + exfalso. apply okh_kind_true in Hr1. apply Hr1. unfold sy. rewrite (Esyn 0 Hn). reflexivity.
+    + exfalso. apply okh_kind_true in Hr1. apply Hr1. unfold sy. rewrite (Esyn 0). reflexivity.
     + eapply single_cn; [exact NS | exact Hrest].
   - (* rep *)
-    destruct (nsubs nd) as [|r1 [|r2 rs]] eqn:Es; try discriminate He.
+    destruct subs0 as [|r1 [|r2 rs]] eqn:Es; try discriminate He.
     destruct n0 as [|k]; [cbn in Eb; discriminate Eb|].
     cbn in Eb. subst a. cbn [main_entry t_seq rls map e_seq ekind esubs] in Hf.
     unfold h_rep in He. apply guard_ok_inv in He.
     eapply (rep_loop_cons ev Hgood k (opt_ d) r1); [eapply single_cn; [exact NS | exact Hf] | reflexivity | exact He].
   - (* rep_min_max *)
-    destruct (nsubs nd) as [|r1 [|r2 rs]] eqn:Es; try discriminate He.
+    destruct subs0 as [|r1 [|r2 rs]] eqn:Es; try discriminate He.
     destruct mn as [|k]; [cbn in Eb; discriminate Eb|].
     cbn in Eb. subst a. cbn [main_entry t_seq rls map e_seq ekind esubs] in Hf.
     eapply (h_rep_min_max_cons ev Hgood); [eapply single_cn; [exact NS | exact Hf] | exact He].
   - (* rep_opt *) cbn in Eb; discriminate Eb.
   - (* if_then_else *)
-    destruct (nsubs nd) as [|cnd [|t [|e [|? ?]]]] eqn:Es; try discriminate He.
+    destruct subs0 as [|cnd [|t [|e [|? ?]]]] eqn:Es; try discriminate He.
     cbn in Eb. subst a. cbn [main_entry e_sor ekind esubs] in Hf.
     destruct (okfh_sor_all ent h' _ _ _ Hf (sy self 1)) as [b1 [Hb1 Hi1]]; [left; reflexivity|].
     destruct (okfh_sor_all ent h' _ _ _ Hf (rl e)) as [b2 [Hb2 Hi2]]; [right; left; reflexivity|].
     rewrite (Hi1 eq_refl) in Hb1. rewrite (Hi2 eq_refl) in Hb2.
     eapply (h_if_then_else_cons ev Hgood); [| eapply cn_of; exact Hb2 | exact He].
     apply okh_inv in Hb1. destruct Hb1 as [h2 [a2 [_ [Hnin2 [Hf2 Fb]]]]]. symmetry in Fb.
-    unfold sy in Hf2, Fb. rewrite (Esyn 0 Hn) in Hf2, Fb. cbn in Fb. subst a2.
+    unfold sy in Hf2, Fb. rewrite (Esyn 0) in Hf2, Fb. cbn in Fb. subst a2.
     cbn [syn_entry e_seq ekind esubs] in Hf2.
     destruct (true_elem_cn h2 _ KSeq [cnd; t] NS Hf2) as [r [[<-|[<-|[]]] Hcn]]; [left | right]; exact Hcn.
   - (* must *)
-    destruct (nsubs nd) as [|r1 [|r2 rs]] eqn:Es; try discriminate He.
+    destruct subs0 as [|r1 [|r2 rs]] eqn:Es; try discriminate He.
     cbn in Eb. subst a. cbn [main_entry t_seq rls map e_seq ekind esubs] in Hf.
     apply (h_must_ok_inv ev) in He. eapply single_cn; [exact NS | exact Hf | exact He].
   - (* raise *)
-    destruct (nsubs nd) as [|r1 [|r2 rs]] eqn:Es; discriminate He.
+    destruct subs0 as [|r1 [|r2 rs]] eqn:Es; discriminate He.
   - (* strict *) exfalso. cbn [main_entry e_bad e_seq ekind esubs] in Hf. eapply okfh_bad; exact Hf.
   - (* star_strict *) exfalso. cbn [main_entry e_bad e_seq ekind esubs] in Hf. eapply okfh_bad; exact Hf.
   - (* rematch *)
-    destruct (nsubs nd) as [|hd rs] eqn:Es; [discriminate He|].
+    destruct subs0 as [|hd rs] eqn:Es; [discriminate He|].
     cbn in Eb. subst a. cbn [main_entry e_sor ekind esubs] in Hf.
     destruct (okfh_sor_all ent h' _ _ _ Hf (rl hd)) as [b1 [Hb1 Hi1]]; [left; reflexivity|].
     rewrite (Hi1 eq_refl) in Hb1.
     eapply (h_rematch_cons ev); [eapply cn_of; exact Hb1 | exact He].
   - (* try_catch_return_false *)
-    destruct (nsubs nd) as [|r1 [|r2 rs]] eqn:Es; try discriminate He.
+    destruct subs0 as [|r1 [|r2 rs]] eqn:Es; try discriminate He.
     cbn in Eb. subst a. cbn [main_entry t_seq rls map e_seq ekind esubs] in Hf.
     apply (h_try_false_ok_inv ev) in He. eapply single_cn; [exact NS | exact Hf | exact He].
   - (* try_catch_raise_nested *)
-    destruct (nsubs nd) as [|r1 [|r2 rs]] eqn:Es; try discriminate He.
+    destruct subs0 as [|r1 [|r2 rs]] eqn:Es; try discriminate He.
     cbn in Eb. subst a. cbn [main_entry t_seq rls map e_seq ekind esubs] in Hf.
     apply (h_try_nested_ok_inv ev) in He. eapply single_cn; [exact NS | exact Hf | exact He].
   - (* state *)
-    destruct (nsubs nd) as [|r1 [|r2 rs]] eqn:Es; try discriminate He.
+    destruct subs0 as [|r1 [|r2 rs]] eqn:Es; try discriminate He.
     cbn in Eb. subst a. cbn [main_entry t_seq rls map e_seq ekind esubs] in Hf.
     apply st_scope_ok_inv in He. destruct He as [e' He]. eapply single_cn; [exact NS | exact Hf | exact He].
   - (* action *)
-    destruct (nsubs nd) as [|r1 [|r2 rs]] eqn:Es; try discriminate He.
+    destruct subs0 as [|r1 [|r2 rs]] eqn:Es; try discriminate He.
     cbn in Eb. subst a. cbn [main_entry t_seq rls map e_seq ekind esubs] in Hf.
     eapply single_cn; [exact NS | exact Hf | exact He].
   - (* control *)
-    destruct (nsubs nd) as [|r1 [|r2 rs]] eqn:Es; try discriminate He.
+    destruct subs0 as [|r1 [|r2 rs]] eqn:Es; try discriminate He.
     cbn in Eb. subst a. cbn [main_entry t_seq rls map e_seq ekind esubs] in Hf.
     eapply single_cn; [exact NS | exact Hf | exact He].
   - (* enable *)
-    destruct (nsubs nd) as [|r1 [|r2 rs]] eqn:Es; try discriminate He.
+    destruct subs0 as [|r1 [|r2 rs]] eqn:Es; try discriminate He.
     cbn in Eb. subst a. cbn [main_entry t_seq rls map e_seq ekind esubs] in Hf.
     eapply single_cn; [exact NS | exact Hf | exact He].
   - (* disable *)
-    destruct (nsubs nd) as [|r1 [|r2 rs]] eqn:Es; try discriminate He.
+    destruct subs0 as [|r1 [|r2 rs]] eqn:Es; try discriminate He.
     cbn in Eb. subst a. cbn [main_entry t_seq rls map e_seq ekind esubs] in Hf.
     eapply single_cn; [exact NS | exact Hf | exact He].
   - (* apply *) cbn in Eb; discriminate Eb.
@@ -225,16 +254,15 @@ Proof.
     destruct (n <? length (rest c) - length (rest c1))%nat; [discriminate|]. inversion H; subst. eapply Hp; eauto.
 Qed.
 
-Theorem cons_sound : forall f r, cons_ok r -> Cn (eval G C f) r.
+Lemma cn_mono f f' r : f' <= f -> Cn (eval G C f) r -> Cn (eval G C f') r.
+Proof. intros Hle H d c c' evs E. eapply H. eapply eval_mono_res; eauto. Qed.
+
+Lemma node_cons_wrap f r nd : nth_error G r = Some nd ->
+  (forall n d0 c0 c1 e1, eval_head C (eval G C f) n r (nhead nd) (nsubs nd) d0 c0 = Res Ok c1 e1 -> len c1 < len c0) ->
+  Cn (eval G C f) r -> Cn (eval G C (S f)) r.
 Proof.
-  induction f as [|f IHf]; intros r Hok d c c' evs He; [discriminate|].
-  simpl in He.
-  destruct (nth_error G r) as [nd|] eqn:En; [|discriminate].
+  intros En Hbody Hre d c c' evs He. simpl in He. rewrite En in He.
   apply traced_inv in He. destruct He as [e' He].
-  destruct Hok as [h [stk Hok]].
-  assert (Hgood : forall d r c, goodT (dM d) c (eval G C f d r c)) by (intros; apply eval_goodT; exact Hwf).
-  assert (Hbody : forall n d0 c0 c1 e1, eval_head C (eval G C f) n r (nhead nd) (nsubs nd) d0 c0 = Res Ok c1 e1 -> len c1 < len c0).
-  { intros n d0 c0 c1 e1 H. eapply (cons_head (eval G C f) Hgood IHf); eauto. }
   assert (Hplain : forall ak d0 c0 c1 e1,
             (if nenabled nd then match_hpp C ak (eval_head C (eval G C f) f r (nhead nd) (nsubs nd)) d0 r c0
              else eval_head C (eval G C f) f r (nhead nd) (nsubs nd) d0 c0) = Res Ok c1 e1 -> len c1 < len c0).
@@ -242,6 +270,208 @@ Proof.
   destruct (acts C (dAct d) r) as [| | |m]; try (eapply Hplain; exact He).
   eapply action_match_cons; [| | exact He].
   - intros d0 c0 c1 e1 H. cbv beta in H. eapply (Hplain AKNone); exact H.
-  - intros d0 c0 c1 e1 H. eapply IHf; [exists h, stk; exact Hok | exact H].
+  - intros d0 c0 c1 e1 H. eapply Hre; eauto.
+Qed.
+
+(* ---------- the must< Rules... > helper nodes under if_must ---------- *)
+Definition NoFail (f : nat) (r : rid) : Prop := forall d c c' e, eval G C f d r c <> Res Fail c' e.
+Definition CnLe (f : nat) (r : rid) : Prop := forall f', f' <= f -> Cn (eval G C f') r.
+
+Lemma st_scope_fail_inv b r c0 x c e : st_scope b r c0 x = Res Fail c e -> exists e', x = Res Fail c e'.
+Proof. dres x; simpl; intros H; inversion H; subst. eexists; reflexivity. Qed.
+
+Lemma action_match_nofail ev plain enabled m d r c c' e :
+  (forall d0 c0 c1 e1, plain d0 c0 <> Res Fail c1 e1) -> (forall d0 c0 c1 e1, ev d0 r c0 <> Res Fail c1 e1) ->
+  action_match ev plain enabled m d r c <> Res Fail c' e.
+Proof.
+  intros Hp Hev. destruct m; simpl; intros H.
+  - eapply Hev; eauto.
+  - apply st_scope_fail_inv in H. destruct H as [e' H]. eapply Hp; eauto.
+  - apply st_scope_fail_inv in H. destruct H as [e' H]. eapply Hev; eauto.
+  - eapply Hp; eauto.
+  - eapply Hp; eauto.
+  - eapply Hp; eauto.
+  - destruct enabled; [|eapply Hp; eauto]. destruct (n <? S (dDepth d))%nat; [discriminate | eapply Hp; eauto].
+  - destruct (plain d (mkcur (firstn n (rest c)) (cpos c))) as [[| |ex] c1 evs1| |] eqn:E; try discriminate.
+    + destruct (in_empty c1 && negb (is_nil (skipn n (rest c)))); discriminate.
+    + eapply Hp; eauto.
+  - destruct (plain d c) as [[| |ex] c1 evs1| |] eqn:E; try discriminate.
+    + destruct (n <? length (rest c) - length (rest c1))%nat; discriminate.
+    + eapply Hp; eauto.
+Qed.
+
+Lemma node_nofail_wrap f r nd : nth_error G r = Some nd -> nenabled nd = false ->
+  (forall n d0 c0 c1 e1, eval_head C (eval G C f) n r (nhead nd) (nsubs nd) d0 c0 <> Res Fail c1 e1) ->
+  NoFail f r -> NoFail (S f) r.
+Proof.
+  intros En Hen Hbody Hre d c c' e He. simpl in He. rewrite En, Hen in He.
+  apply traced_inv in He. destruct He as [e' He].
+  destruct (acts C (dAct d) r) as [| | |m]; try (eapply Hbody; exact He).
+  eapply action_match_nofail; [| | exact He].
+  - intros d0 c0 c1 e1 H. eapply Hbody; exact H.
+  - intros d0 c0 c1 e1 H. eapply Hre; eauto.
+Qed.
+
+Lemma plain_must_inv m : plain_must G m = true ->
+  exists nd r, nth_error G m = Some nd /\ nenabled nd = false /\ nhead nd = HMust /\ nsubs nd = [r] /\ unmust G m = r.
+Proof.
+  unfold plain_must, unmust. destruct (nth_error G m) as [nd|]; [|discriminate]. intros H.
+  apply andb_true_iff in H. destruct H as [Hen Hsh]. apply negb_true_iff in Hen.
+  destruct (nhead nd) eqn:Eh; try discriminate Hsh. destruct (nsubs nd) as [|r [|? ?]] eqn:Es; try discriminate Hsh.
+  exists nd, r. auto.
+Qed.
+
+Lemma h_must_nofail ev d r1 c c' e : h_must ev d r1 c <> Res Fail c' e.
+Proof. unfold h_must, raise_at. destruct (ev (opt_ d) r1 c) as [[| |ex] c1 evs1| |]; discriminate. Qed.
+
+Lemma plain_must_nofail : forall f m, plain_must G m = true -> NoFail f m.
+Proof.
+  induction f as [|f IH]; intros m Hm; [intros d c c' e; discriminate|].
+  destruct (plain_must_inv m Hm) as [nd [r [En [Hen [Eh [Es _]]]]]].
+  apply (node_nofail_wrap f m nd En Hen); [|apply IH; exact Hm].
+  intros n d0 c0 c1 e1. rewrite Eh, Es. unfold eval_head. cbn [eval_atom]. apply h_must_nofail.
+Qed.
+
+Lemma guard_fail_inv m s x c e : guard m s x = Res Fail c e -> exists c1, x = Res Fail c1 e.
+Proof. dres x; simpl; intros H; inversion H; subst. eexists; reflexivity. Qed.
+
+Lemma seq_all_nofail ev d rs : (forall r, In r rs -> forall d0 c0 c1 e1, ev d0 r c0 <> Res Fail c1 e1) ->
+  forall c c' e, seq_all ev d rs c <> Res Fail c' e.
+Proof.
+  induction rs as [|r rs IH]; intros Hall c c' e; simpl; [discriminate|]. unfold bind.
+  destruct (ev d r c) as [[| |ex] c0 evs0| |] eqn:E1; try discriminate.
+  - intros H. apply prepend_inv in H. destruct H as [e' H]. eapply IH; [intros x Hx; apply Hall; right; exact Hx | exact H].
+  - exfalso. eapply (Hall r); [left; reflexivity | exact E1].
+Qed.
+
+Lemma helper_nofail : forall f m, must_helper_ok G m = true -> NoFail f m.
+Proof.
+  induction f as [|f IH]; intros m Hm; [intros d c c' e; discriminate|].
+  pose proof Hm as Hm0. unfold must_helper_ok in Hm. destruct (nth_error G m) as [nd|] eqn:En; [|discriminate].
+  apply andb_true_iff in Hm. destruct Hm as [Hen Hsh]. apply negb_true_iff in Hen.
+  apply (node_nofail_wrap f m nd En Hen); [|apply IH; exact Hm0].
+  intros n d0 c0 c1 e1. unfold eval_head.
+  destruct (nhead nd) eqn:Eh; try discriminate Hsh; cbn [eval_atom].
+  - (* success *) discriminate.
+  - (* seq *) unfold h_seq. rewrite forallb_forall in Hsh.
+    destruct (nsubs nd) as [|m1 [|m2 ms]] eqn:Es.
+    + discriminate.
+    + apply plain_must_nofail. apply Hsh. left. reflexivity.
+    + intros H. apply guard_fail_inv in H. destruct H as [c2 H]. revert H. apply seq_all_nofail.
+      intros r Hr. apply plain_must_nofail. apply Hsh. exact Hr.
+  - (* must *) destruct (nsubs nd) as [|r [|? ?]] eqn:Es; try discriminate Hsh. apply h_must_nofail.
+Qed.
+
+Lemma plain_must_cn f m : plain_must G m = true -> CnLe f (unmust G m) -> CnLe f m.
+Proof.
+  intros Hm Hr f'. induction f' as [|f' IH]; intros Hle; [intros d c c' evs; discriminate|].
+  destruct (plain_must_inv m Hm) as [nd [r [En [Hen [Eh [Es Eu]]]]]]. rewrite Eu in Hr.
+  apply (node_cons_wrap f' m nd En); [|apply IH; lia].
+  intros n d0 c0 c1 e1. rewrite Eh, Es. unfold eval_head. cbn [eval_atom]. intros H.
+  apply (h_must_ok_inv (eval G C f')) in H. eapply (Hr f'); [lia | exact H].
+Qed.
+
+Lemma helper_cn f m : must_helper_ok G m = true -> (exists r, In r (must_rules G [m]) /\ CnLe f r) -> CnLe f m.
+Proof.
+  intros Hm [r [Hin Hr]] f'. induction f' as [|f' IH]; intros Hle; [intros d c c' evs; discriminate|].
+  pose proof Hm as Hm0. unfold must_helper_ok in Hm. unfold must_rules in Hin.
+  destruct (nth_error G m) as [nd|] eqn:En; [|discriminate].
+  apply andb_true_iff in Hm. destruct Hm as [Hen Hsh].
+  apply (node_cons_wrap f' m nd En); [|apply IH; lia].
+  assert (Hgood : forall d r c, goodT (dM d) c (eval G C f' d r c)) by (intros; apply eval_goodT; exact Hwf).
+  intros n d0 c0 c1 e1. unfold eval_head.
+  destruct (nhead nd) eqn:Eh; try discriminate Hsh; cbn [eval_atom].
+  - (* success *) destruct (nsubs nd); [destruct Hin | discriminate Hsh].
+  - (* seq *) rewrite forallb_forall in Hsh. intros H.
+    apply (h_seq_ok_inv (eval G C f')) in H. destruct H as [d' [evs' H]].
+    apply in_map_iff in Hin. destruct Hin as [mi [Emi Hmi]]. subst r.
+    eapply (seq_all_cons (eval G C f') Hgood); [|exact H]. exists mi. split; [exact Hmi|].
+    apply (plain_must_cn f mi (Hsh mi Hmi) Hr f'). lia.
+  - (* must *) destruct (nsubs nd) as [|r0 [|? ?]] eqn:Es; try discriminate Hsh.
+    destruct Hin as [<-|[]]. intros H. apply (h_must_ok_inv (eval G C f')) in H. eapply (Hr f'); [lia | exact H].
+Qed.
+
+(* node level: the rule tgt lies on the eff chain of self (tgt = self, or reached through if_apply / until< Cond >
+   nodes), and the trait of the end of the chain, stored under self, was answered "consumes" *)
+Theorem cons_chain : forall f k tgt (self : rid) h0 subs0 h stk,
+  eff G k tgt = Some (h0, subs0) ->
+  ent (rl self) = main_entry G self h0 subs0 ->
+  (forall j, ent (self, S j) = syn_entry G self h0 subs0 (S j)) ->
+  okh ent h stk (rl self) true ->
+  Cn (eval G C f) tgt.
+Proof.
+  induction f as [|f IHf]; intros k tgt self h0 subs0 h stk Heff Hmain Hsyn Hok d c c' evs He; [discriminate|].
+  assert (IHs : forall r, cons_ok r -> Cn (eval G C f) r).
+  { intros r [h1 [stk1 Hr]]. destruct (eff G (eff_fuel G) r) as [[h1' subs1]|] eqn:E.
+    - eapply (IHf (eff_fuel G) r r h1' subs1 h1 stk1 E); [eapply ent_main_eff; eauto | intros j; eapply ent_syn_eff; eauto | exact Hr].
+    - exfalso. apply okh_inv in Hr. destruct Hr as [h2 [a [_ [_ [Hf _]]]]]. rewrite (ent_bad_eff G r E) in Hf.
+      cbn [e_bad e_seq ekind esubs] in Hf. eapply okfh_bad; exact Hf. }
+  assert (Hgood : forall d r c, goodT (dM d) c (eval G C f d r c)) by (intros; apply eval_goodT; exact Hwf).
+  simpl in He.
+  destruct (nth_error G tgt) as [nd|] eqn:En; [|discriminate].
+  apply traced_inv in He. destruct He as [e' He].
+  assert (Hbody : forall n d0 c0 c1 e1, eval_head C (eval G C f) n tgt (nhead nd) (nsubs nd) d0 c0 = Res Ok c1 e1 -> len c1 < len c0).
+  { intros n d0 c0 c1 e1 H.
+    destruct k as [|k]; [discriminate Heff|]. cbn [eff] in Heff. rewrite En in Heff.
+    pose proof (shape_node G tgt nd Hcov En) as Hcv. unfold node_shape_ok in Hcv.
+    assert (Hdirect : head_direct (nhead nd) = true -> len c1 < len c0).
+    { intros Hd. assert (E : Some (nhead nd, nsubs nd) = Some (h0, subs0)) by (destruct (nhead nd); try discriminate Hd; exact Heff).
+      inversion E; subst h0 subs0.
+      exact (cons_head (eval G C f) Hgood IHs n tgt self (nhead nd) (nsubs nd) h stk d0 c0 c1 e1 (Hwf tgt nd En) Hd Hmain Hsyn Hok H). }
+    destruct (nhead nd) eqn:Eh; try (apply Hdirect; reflexivity).
+    - (* until< Cond > *)
+      unfold eval_head in H. cbn [eval_atom] in H.
+      destruct (nsubs nd) as [|cnd [|? ?]] eqn:Es; try discriminate H.
+      unfold h_until1 in H. apply guard_ok_inv in H.
+      eapply (until1_cons C (eval G C f) Hgood); [|exact H].
+      eapply (IHf k cnd self h0 subs0 h stk); eauto.
+    - (* if_must *)
+      destruct (nsubs nd) as [|cnd [|m [|? ?]]] eqn:Es; try discriminate Hcv.
+      inversion Heff; subst h0 subs0. clear Heff.
+      apply okh_inv in Hok. destruct Hok as [h' [a [_ [_ [Hf Eb]]]]]. symmetry in Eb.
+      rewrite Hmain in Hf, Eb.
+      destruct dflt.
+      { cbn [main_entry] in Eb. destruct (is_nilb (must_rules G [m])); cbn in Eb; discriminate Eb. }
+      cbn in Eb. subst a. cbn [main_entry e_seq ekind esubs] in Hf.
+      change (rl cnd :: rls (must_rules G [m])) with (rls (cnd :: must_rules G [m])) in Hf.
+      assert (NS : KSeq <> KSor) by discriminate.
+      destruct (okfh_true_elem ent h' _ KSeq _ NS Hf) as [x [Hx Hxok]].
+      destruct (in_rls_ex x _ Hx) as [r [-> Hr]].
+      assert (Hrle : CnLe f r).
+      { intros f' Hle. apply (cn_mono f f' r Hle). apply IHs. exists h', (rl self :: stk). exact Hxok. }
+      unfold eval_head in H. cbn [eval_atom] in H. unfold h_if_must in H.
+      destruct (eval G C f d0 cnd c0) as [[| |ex] c2 evs2| |] eqn:E1; try discriminate H.
+      destruct (eval G C f d0 m c2) as [[| |ex] c3 evs3| |] eqn:E2.
+      + apply prepend_inv in H. destruct H as [e2 H]. inversion H; subst c3.
+        pose proof (ev_le (eval G C f) Hgood _ _ _ _ _ E1) as L1. pose proof (ev_le (eval G C f) Hgood _ _ _ _ _ E2) as L2.
+        destruct Hr as [<-|Hr].
+        * apply (Hrle f (le_n _)) in E1. lia.
+        * assert (K : len c1 < len c2); [|lia].
+          eapply (helper_cn f m Hcv); [exists r; split; [exact Hr | exact Hrle] | apply le_n | exact E2].
+      + exfalso. eapply (helper_nofail f m Hcv); exact E2.
+      + apply prepend_inv in H. destruct H as [e2 H]. discriminate H.
+      + discriminate H.
+      + discriminate H.
+    - (* if_apply *)
+      unfold eval_head in H. cbn [eval_atom] in H.
+      destruct (nsubs nd) as [|r1 [|? ?]] eqn:Es; try discriminate H.
+      apply (h_if_apply_ok_inv C) in H. destruct H as [d' [evs' H]].
+      eapply (IHf k r1 self h0 subs0 h stk); eauto. }
+  assert (Hplain : forall ak d0 c0 c1 e1,
+            (if nenabled nd then match_hpp C ak (eval_head C (eval G C f) f tgt (nhead nd) (nsubs nd)) d0 tgt c0
+             else eval_head C (eval G C f) f tgt (nhead nd) (nsubs nd) d0 c0) = Res Ok c1 e1 -> len c1 < len c0).
+  { intros ak d0 c0 c1 e1 H. destruct (nenabled nd); [apply match_hpp_ok_inv in H; destruct H as [d' [evs' H]]|]; eapply Hbody; eauto. }
+  destruct (acts C (dAct d) tgt) as [| | |m]; try (eapply Hplain; exact He).
+  eapply action_match_cons; [| | exact He].
+  - intros d0 c0 c1 e1 H. cbv beta in H. eapply (Hplain AKNone); exact H.
+  - intros d0 c0 c1 e1 H. eapply (IHf k tgt self h0 subs0 h stk); eauto.
+Qed.
+
+Theorem cons_sound : forall f r, cons_ok r -> Cn (eval G C f) r.
+Proof.
+  intros f r [h1 [stk1 Hr]]. destruct (eff G (eff_fuel G) r) as [[h1' subs1]|] eqn:E.
+  - eapply (cons_chain f (eff_fuel G) r r h1' subs1 h1 stk1 E); [eapply ent_main_eff; eauto | intros j; eapply ent_syn_eff; eauto | exact Hr].
+  - exfalso. apply okh_inv in Hr. destruct Hr as [h2 [a [_ [_ [Hf _]]]]]. rewrite (ent_bad_eff G r E) in Hf.
+    cbn [e_bad e_seq ekind esubs] in Hf. eapply okfh_bad; exact Hf.
 Qed.
 End Cons.
